@@ -244,6 +244,7 @@ def call_method(w, st, obj, mtype, method, a, seed, argvals=None):
             args.append(kw[name])
         if a.get("population"):
             kw["population"] = True
+        _same_dict(a, kw, args)
         if "n" in a:
             return (lambda: obj.sample(a["n"], random_state=seed, **kw)), args
         return (lambda: obj.sample(random_state=seed, **kw)), args
@@ -255,6 +256,7 @@ def call_method(w, st, obj, mtype, method, a, seed, argvals=None):
                 continue
             kw[name] = build_arg(w, st, {"__ivs__": ["anm", v]})
             args.append(kw[name])
+        _same_dict(a, kw, args)
         return (lambda: obj.sample(a["n"], random_state=seed, **kw)), args
     if method == "sample":
         return (lambda: obj.sample(a["n"], random_state=seed)), args
@@ -274,6 +276,16 @@ def call_method(w, st, obj, mtype, method, a, seed, argvals=None):
     if method == "str":
         return (lambda: str(obj)), args
     raise ValueError(method)
+
+
+def _same_dict(a, kw, args):
+    """The caller passes one dict object for two intervention parameters."""
+    sd = a.get("same_dict")
+    if sd:
+        n1, n2 = (s + "_interventions" for s in sd)
+        if n1 in kw and n2 in kw and kw[n1] is not None:
+            args[:] = [x for x in args if x is not kw[n2]]
+            kw[n2] = kw[n1]
 
 
 def comparable(rec):
@@ -934,6 +946,11 @@ def gen_m_call(g, gs, cfg, mid, force_method=None):
         a = {"do": G.lganm_ivs(g, p), "shift": G.lganm_ivs(g, p), "noise": G.lganm_ivs(g, p)}
         if g.random() < 0.15:
             a["npkeys"] = True
+        if g.random() < 0.06:
+            k1, k2 = g.sample(["do", "shift", "noise"], 2)
+            if isinstance(a[k1], list) and a[k1]:
+                a[k2] = copy.deepcopy(a[k1])
+                a["same_dict"] = [k1, k2]
         if pop:
             a["population"] = True
             if g.random() < 0.5:
